@@ -30,6 +30,7 @@
 -/
 import ControlModel.Gen.ExecTask
 import ControlModel.Proofs.ExecTask
+import ControlModel.Proofs.ExecOverlap
 
 open ExecTask
 
@@ -457,4 +458,127 @@ example :
 example :
     Spec [.start, .stop, .kill, .kill, .tick] (run legacyCfg .basic .ok [.start, .stop, .kill, .kill, .tick]).obs = false ∧
     Spec [.start, .stop, .kill, .kill, .tick] (run codeCfg .basic .ok [.start, .stop, .kill, .kill, .tick]).obs = true := by
+  decide
+
+/-! ## overlapping requests
+
+A schedule element `par a b` delivers request `b` while request `a` is being served (Model/ExecOverlap): the real
+handlers look the task up and then serve every MESSAGE and every KILL in a goroutine of its own, on a task object
+that has no lock. The model's answer is the SET of all interleavings of the atomic parts of the two requests
+(`runI`); the correspondence run is a monitor (the real executor's observation must be one of them). The theorems
+below are about EVERY member of that set, for all kinds, behaviours and schedules of items of any length. -/
+
+/-- What the overlap model assumes about how requests are served IS what the source says (go/ast): both handlers
+    look the task up themselves and serve the request (Transition, Trigger, Kill) from a goroutine they start;
+    handleKillEvent removes the entry from activeTasks only inside that goroutine (a second KILL still finds the
+    task); startBasicTask calls Start() through the field t.taskCmd and its reaper goroutine copies the field only
+    when it runs, basicTaskBase.Kill sets the field to nil, and none of them takes a lock (the parts `exec` and
+    `reap` can find nil); ensureBasicTaskKilled runs straight through — no loop, no receive, no sleep — so that a
+    STOP is ONE part. A change that lets a STOP wait, or that serialises the requests, flips a fact and breaks
+    this theorem: the granularity of the model then has to be redone together with the correspondence. -/
+theorem C17_overlap_is_code :
+    Gen.ExecTask.messagesServedInGoroutine = true ∧ Gen.ExecTask.killServedInGoroutine = true ∧
+    Gen.ExecTask.lookupInHandler = true ∧ Gen.ExecTask.killRemovesEntryInGoroutine = true ∧
+    Gen.ExecTask.reaperCopiesCmdInGoroutine = true ∧ Gen.ExecTask.startThroughField = true ∧
+    Gen.ExecTask.basicKillClearsCmd = true ∧ Gen.ExecTask.stopDoesNotWait = true ∧
+    Gen.ExecTask.basicTaskLocks = false := by decide
+
+/-- The model with overlaps is conservative: a schedule without overlaps has exactly one run, the run of the
+    sequential model — for every configuration, kind, behaviour and schedule. (All theorems above therefore also
+    speak about `runI` on plain schedules.) -/
+theorem C17_overlap_conservative (c : Cfg) (k : Kind) (b : Beh) (ops : List Op) :
+    runI c k b (plain ops) = [(run c k b ops).lift] :=
+  runI_plain c k b ops
+
+/-- The atomic parts are a refinement of the step: the look-up and the parts of ONE request, run with nothing in
+    between, do exactly what `step` does — for every state, every request (in particular `prep; exec; reap` is
+    `spawn`). -/
+theorem C17_request_alone_is_step (c : Cfg) (s : St) (op : Op) (hl : s.loop = true) (hr : op.isRequest = true) :
+    runThread c (partsOf s.kind op) s none =
+      if (step c s op).2.halts then .error (step c s op).2 else .ok ((step c s op).1, some (step c s op).2) :=
+  runThread_is_step c s op hl hr
+
+/-- An overlap generalises the sequence: "A served completely, then B" is always one of the behaviours of
+    `par a b` — for every state and every pair of requests. -/
+theorem C17_overlap_includes_sequential (c : Cfg) (s : St) (a b : Op) (hl : s.loop = true)
+    (hra : a.isRequest = true) (hrb : b.isRequest = true) (ha : (step c s a).2.halts = false)
+    (hl' : (step c s a).1.loop = true) (hb : (step c (step c s a).1 b).2.halts = false) :
+    POut.done (step c (step c s a).1 b).1 (step c s a).2 (step c (step c s a).1 b).2 ∈ parOutcomes c s a b :=
+  par_includes_seq c s a b hl hra hrb ha hl' hb
+
+/-- ONE part of the handling of a request gets the executor stuck EXACTLY in the states `unsafePart` — for every
+    state, reachable or not: a request served in one piece where `step` is stuck (`C17_stuck_iff_unsafe`), the
+    parts of startBasicTask that use t.taskCmd exactly when it is nil. -/
+theorem C17_part_stuck_iff_unsafe (c : Cfg) (s : St) (p : Part) : (pstep c s p).halts = unsafePart c s p :=
+  pstep_halts_iff c s p
+
+/-- FULL-STRENGTH (false of the code: `C17_finding_overlapping_kills_two_terminals`): whatever requests overlap,
+    every run sends at most one terminal status. -/
+def C17_overlap_one_terminal_full (c : Cfg) : Prop :=
+  ∀ (k : Kind) (b : Beh) (items : List Item), items.all (Item.ok k) = true →
+    (runI c k b items).all (fun o => oneTerminal (o.obs.flat items).2.emits) = true
+
+/-- What IS proved, for every configuration, kind, behaviour and schedule of items: unless two KILLs overlap, EVERY
+    interleaving sends at most one terminal status, and a task on which a KILL was carried out is never reported
+    failed. -/
+theorem C17_overlap_one_terminal_partial (c : Cfg) (k : Kind) (b : Beh) (items : List Item)
+    (hn : items.all notTwoKills = true) :
+    (runI c k b items).all (fun o => oneTerminal (o.obs.flat items).2.emits &&
+      (!o.st.killed || !o.obs.emits.contains (.term .FAILED))) = true := by
+  simp only [List.all_eq_true, Bool.and_eq_true, Bool.or_eq_true, Bool.not_eq_true']
+  intro o ho
+  have hinv := runI_inv c k b items hn o ho
+  constructor
+  · rw [emits_flat]
+    simpa [oneTerminal, IOutcome.obs] using hinv.le1
+  · cases hk : o.st.killed
+    · exact Or.inl rfl
+    · right
+      have := hinv.nof hk
+      simpa [IOutcome.obs] using this
+
+/-- Finding (OPEN, true of the code as it is): two KILLs for the same basic or hook task delivered back to back —
+    both handlers find the task (the entry is removed only by the goroutine), both goroutines call Kill: two
+    TASK_FINISHED. -/
+theorem C17_finding_overlapping_kills_two_terminals : ¬ C17_overlap_one_terminal_full codeCfg := by
+  intro h
+  have := h .basic .ok [.one .tick, .par .kill .kill] (by decide)
+  revert this; decide
+
+/-- FULL-STRENGTH (false of the code: `C17_finding_kill_overlaps_start_panics`): whatever requests overlap on a
+    basic task, a hook task or a task without data, no run crashes or hangs the executor or ends its event loop. -/
+def C17_overlap_no_stuck_full (c : Cfg) : Prop :=
+  ∀ (k : Kind) (b : Beh) (items : List Item), k ≠ .ctl → items.all (Item.ok k) = true →
+    (runI c k b items).all (fun o => noStuck (o.obs.flat items).2.res) = true
+
+/-- **For the code as it is**, all behaviours, all schedules of items: over a basic task, a hook task or a task
+    without data NO interleaving of overlapping requests crashes or hangs the executor or ends its event loop —
+    unless a KILL overlaps a request that starts a child (the one open class). In particular STOP ∥ KILL, STOP ∥ STOP,
+    STOP ∥ START, KILL ∥ KILL and every overlap with a transition that is a no-op are handled in every order. -/
+theorem C17_overlap_no_stuck_code (k : Kind) (hk : k ≠ .ctl) (b : Beh) (items : List Item)
+    (hn : items.all (noKillSpawn k) = true) :
+    (runI codeCfg k b items).all (fun o => noStuck (o.obs.flat items).2.res) = true := by
+  simp only [List.all_eq_true]
+  intro o ho
+  exact noStuck_flat items o.obs (by simpa [IOutcome.obs] using runI_noStuck k hk b items hn o ho)
+
+/-- Finding (OPEN, true of the code as it is): a KILL handled while a START of the same basic task (or the
+    trigger of the same hook) is being served — Kill sets t.taskCmd = nil under startBasicTask, whose next use of
+    the field (Start, or the reaper goroutine's copy) panics: the executor and every task on it are gone. -/
+theorem C17_finding_kill_overlaps_start_panics : ¬ C17_overlap_no_stuck_full codeCfg := by
+  intro h
+  have := h .hook .ok [.one .tick, .par .trigger .kill] (by decide) (by decide)
+  revert this; decide
+
+/-- The same class without a crash: when Kill happens to run before startBasicTask (whose look-up had already
+    succeeded), the child is started for a task whose terminal status is out — a survivor of a carried-out KILL;
+    and the hypotheses of the two overlap theorems are met by realistic schedules whose runs really differ. -/
+example :
+    (runI codeCfg .basic .ok [.one .tick, .par .kill .start]).any
+      (fun o => !o.halted && o.st.alive && o.st.killed) = true ∧
+    ([Item.one .tick, .one .start, .par .stop .kill, .one .await].all (noKillSpawn .basic) &&
+      [Item.one .tick, .one .start, .par .stop .kill, .one .await].all notTwoKills) = true ∧
+    2 ≤ (runI codeCfg .basic .ok [.one .tick, .one .start, .par .stop .kill, .one .await]).length ∧
+    ([Item.one .tick, .par .start .stop, .par .stop .start, .one .kill].all (noKillSpawn .basic)) = true ∧
+    3 ≤ (runI codeCfg .basic .fork [.one .tick, .par .start .stop, .par .stop .start, .one .kill]).length := by
   decide
